@@ -115,14 +115,18 @@ theorem stepExact_of (s : S) (op : Op Rat) (id : Int)
     · exact silent _ (by simp)
     · rename_i u hf
       have hid := find?_id hf
-      exact emitHP_stepExact src _ dmg id (hid ▸ hf)
+      by_cases hd : u.life = .dead
+      · rw [if_pos hd]; exact nil
+      · rw [if_neg hd]; exact emitHP_stepExact src _ dmg id (hid ▸ hf)
   | modHP tid src amt dmg =>
     simp only [step]
     split
     · exact silent _ (by simp)
     · rename_i u hf
       have hid := find?_id hf
-      exact emitHP_stepExact src _ dmg id (hid ▸ hf)
+      by_cases hd : u.life = .dead
+      · rw [if_pos hd]; exact nil
+      · rw [if_neg hd]; exact emitHP_stepExact src _ dmg id (hid ▸ hf)
   | modHPRatio tid src ratio typ floor dmg =>
     simp only [step]
     split
@@ -130,12 +134,15 @@ theorem stepExact_of (s : S) (op : Op Rat) (id : Int)
     · rename_i u hf
       have hid := find?_id hf
       have hf' : find? s u.id = some u := hid ▸ hf
-      split_ifs
-      · exact emitHP_stepExact src _ dmg id hf'
-      · exact emitHP_stepExact src _ dmg id hf'
-      · exact emitHP_stepExact src _ dmg id hf'
-      · exact emitHP_stepExact src _ dmg id hf'
-      · exact silent _ (by simp)
+      by_cases hd : u.life = .dead
+      · rw [if_pos hd]; exact nil
+      · rw [if_neg hd]
+        split_ifs
+        · exact emitHP_stepExact src _ dmg id hf'
+        · exact emitHP_stepExact src _ dmg id hf'
+        · exact emitHP_stepExact src _ dmg id hf'
+        · exact emitHP_stepExact src _ dmg id hf'
+        · exact silent _ (by simp)
   | setEnergy tid src amt =>
     simp only [step]
     split
